@@ -1,10 +1,12 @@
 """C09 - Coroutine lifecycle: state, kill, restart and promise are coherent."""
+import collections
 import gc
 import random
 import weakref
 from fractions import Fraction
 
 from vf import import_desper
+from vf import session
 from vf.core import Res, HarnessError
 
 ID = 'C09'
@@ -146,6 +148,22 @@ def gen_scale(rng):
 
 
 def gen_cases(tier, seed):
+    # whole "game sessions" (vf/session.py): the features used together,
+    # judged by the self-consistency invariants of this property
+    for i in range(150 if tier == 'quick' else 16 * 300):
+        yield session.gen(random.Random(f'C09/session/{seed}/{tier}/{i}'),
+                          tier)
+    # clean-up code (a `finally:` of a coroutine that the processor drops)
+    # that starts another killed coroutine again
+    for i in range(200 if tier == 'quick' else 16 * 400):
+        rng = random.Random(f'C09/final/{seed}/{tier}/{i}')
+        n = rng.randint(2, 4)
+        yield {'mode': 'finalizer', 'n': n,
+               'waits': [rng.choice([1, 1, 2, 3]) for _ in range(n)],
+               'owner': rng.randrange(n),
+               'target': rng.randrange(n),
+               'killed': [rng.random() < 0.8 for _ in range(n)],
+               'dt': rng.choice([5, 5, 1.5, 2])}
     for i in range(2 if tier == 'quick' else 32):
         yield gen_scale(random.Random(f'C09/scale/{seed}/{tier}/{i}'))
     n = 3000 if tier == 'quick' else 16 * 10000
@@ -174,7 +192,106 @@ class Model:
         return enum.TERMINATED
 
 
+def run_finalizer(case):
+    """n sleepers, most of them killed while paused; the `finally:` of one
+    of them (referenced by the processor only) starts another one again.
+    Where and when CPython runs that clean-up is its own business; whenever
+    it runs, start() must either return a promise - and the target then
+    carries on from where it stopped - or refuse with ValueError and change
+    nothing."""
+    desper = import_desper()
+    enum = desper.CoroutineState
+    res = Res()
+    proc = desper.CoroutineProcessor()
+    n = case['n']
+    steps = collections.defaultdict(list)
+    outcome = []
+    gens = [None] * n
+
+    def body(k):
+        try:
+            steps[k].append(0)
+            yield case['waits'][k]
+            steps[k].append(1)
+            yield
+            steps[k].append(2)
+        finally:
+            if k == case['owner'] and case['target'] != k:
+                t = case['target']
+                before = None
+                try:
+                    before = proc.state(gens[t])
+                    promise = proc.start(gens[t])
+                    outcome.append(('returned', promise, before))
+                except BaseException as ex:     # noqa: B902 - judged
+                    outcome.append(('raised', ex, before))
+
+    owner = case['owner']
+    promises = []
+    for k in range(n):
+        g = body(k)
+        gens[k] = g if k != owner else None
+        promises.append(proc.start(g))
+        if k == owner:
+            owner_ref = weakref.ref(g)
+        del g
+    proc.process(0)             # everybody pauses
+    for k in range(n):
+        if case['killed'][k] or k == owner:
+            promises[k].kill()
+    promises[owner] = None      # only the processor references the owner
+    gc.collect()
+    res.stats['finalizer_scenarios'] += 1
+    try:
+        proc.process(case['dt'])
+        for _ in range(4):
+            proc.process(1)
+    except Exception as ex:
+        res.div(1, 'process-raised', f'{type(ex).__name__}: {ex!r}',
+                'no exception', repr(ex))
+        return res
+    if owner_ref() is not None:
+        gc.collect()
+    if not outcome:
+        res.stats['finalizer_never_ran'] += 1
+        return res
+    kind, value, before = outcome[0]
+    res.tags['finalizer_start_outcome'].add(
+        kind if kind == 'returned' else type(value).__name__)
+    t = case['target']
+    if kind == 'raised' and not isinstance(value, (ValueError, TypeError)):
+        res.div(2, 'start-raised-unexpected', 'start() of a generator, called '
+                'from the clean-up code of a coroutine the processor was '
+                f'dropping, raised {type(value).__name__} (target state '
+                f'before the call: {before})',
+                'a promise, or ValueError and nothing changed',
+                repr(value))
+        return res
+    if kind == 'returned':
+        # it carries on from where it stopped: steps 0, 1, 2 once each
+        if steps[t] != [0, 1, 2]:
+            res.div(3, 'restart-did-not-carry-on', f'coroutine {t} was '
+                    'started again by clean-up code; its steps afterwards',
+                    [0, 1, 2], steps[t])
+            return res
+    for k in range(n):
+        if len(set(steps[k])) != len(steps[k]):
+            res.div(3, 'step-repeated', f'coroutine {k}', None, steps[k])
+            return res
+        if case['killed'][k] and k != t and len(steps[k]) > 1:
+            res.div(3, 'killed-code-ran', f'coroutine {k} was killed while '
+                    'paused and ran again', [0], steps[k])
+            return res
+    res.nontrivial = True
+    res.sample = {'outcome': kind, 'steps': dict(steps)}
+    return res
+
+
 def run_case(case):
+    if case.get('scenario') == 'session':
+        return session.run(case, 'C09')
+    if case['mode'] == 'finalizer':
+        return run_finalizer(case)
     if case['mode'] == 'release':
         return run_release(case)
     desper = import_desper()
@@ -657,6 +774,8 @@ def run_release(case):
 
 
 def shrink(case):
+    if case['mode'] == 'finalizer':
+        return
     if case['mode'] != 'main':
         if len(case['dts']) > 1:
             yield dict(case, dts=case['dts'][:-1])
